@@ -334,7 +334,8 @@ def stress(ctx):
     """Scale: more than 128 / 256 operands."""
     import biom
     r = ctx.rng('stress')
-    for k in (130, 300):
+    extra = gen.boundary_sizes(r, 17, 270, 2 if ctx.tier == 'quick' else 8)
+    for k in (130, 300) + tuple(extra):
         for axis in ('sample', 'observation'):
             inv = 'observation' if axis == 'sample' else 'sample'
             tabs, specs = [], []
